@@ -23,6 +23,7 @@ class Recorder:
 
     def __init__(self):
         self.rx = []          # (cid, idx, delay_ms, 'close' | bytes)
+        self.abs = []         # (cid, absolute arrival time in ms) of every peer event, to detect ties
         self._orig = None
 
     def install(self):
@@ -33,15 +34,18 @@ class Recorder:
 
         def deliver(tr, delay, data):
             rec.rx.append((tr.cid, len(tr.written) - 1, ms(delay), bytes(data)))
+            rec.abs.append((tr.cid, ms(tr.loop.now()) + ms(delay)))
             return o_deliver(tr, delay, data)
 
         def peer_close(tr, delay=0.0, exc=None):
             rec.rx.append((tr.cid, len(tr.written) - 1, ms(delay), "close"))
+            rec.abs.append((tr.cid, ms(tr.loop.now()) + ms(delay)))
             return o_close(tr, delay, exc)
 
         def deliver_segments(tr, delay, segments, gap=0.0):
             for i, sg in enumerate(segments):
                 rec.rx.append((tr.cid, len(tr.written) - 1, ms(delay + i * gap), bytes(sg)))
+                rec.abs.append((tr.cid, ms(tr.loop.now()) + ms(delay + i * gap)))
             return o_segs(tr, delay, segments, gap)
         FT.deliver, FT.peer_close, FT.deliver_segments = deliver, peer_close, deliver_segments
 
@@ -186,6 +190,13 @@ def run_history(version, ops, behaviours, connects, token, key, device_id=77, re
     finally:
         rec.uninstall()
     res["rx"] = rec.rx
+    # two peer events reaching one connection in the same millisecond: their order is asyncio's tie-break, which
+    # the model does not (and need not) reproduce - such a history is not compared with the model
+    res["tie"] = len(set(rec.abs)) != len(rec.abs)
+    # ... nor one in which a peer event arrives in the very millisecond in which a read deadline (write + 2 s) falls
+    deadlines = {(e["cid"], ms(e["t"]) + 2000) for e in dev.log}
+    if any(ct in deadlines for ct in rec.abs):
+        res["tie"] = True
     res["dev"] = dev
     res["log"] = device_log(res.get("net"), dev)
     return res
@@ -283,7 +294,9 @@ def compare(ctx, stream, version, ops, behaviours, connects, token, key, note=No
                    if o[0] in ("send", "auth", "sendc", "authc") and behaviours == "director"
                    else (o[0] if o[0] != "adv" else f"adv{o[1]}") for o in ops],
            "connects": connects, "note": note}
-    if ctx.driver:
+    if res.get("tie"):
+        ctx.count("tie-not-compared:" + stream)
+    if ctx.driver and not res.get("tie"):
         line = model_line(ops, res["rx"], connects)
         mouts, mevs, mnow = parse_model(ctx.driver.ask(line))
         ilog = sort_log(res["log"])
